@@ -606,6 +606,12 @@ def install(R):
             raise Unsupported("deepcopy of an object")
         return v
     R.fns["copy.deepcopy"] = _deepcopy
+    def _method_type(E, fn, obj):
+        from .engine import BoundMethod, Closure
+        if isinstance(fn, Closure):
+            return BoundMethod(obj, fn.func)
+        raise Unsupported("MethodType(%r)" % (fn,))
+    R.fns["types.MethodType"] = _method_type
     R.fns["scipy.sparse.issparse"] = lambda E, X: False if isinstance(X, NdArr) else (_ for _ in ()).throw(Unsupported("issparse"))
     R.fns["sklearn.utils.extmath.row_norms"] = lambda E, X, squared=False: NdArr.fresh("row_norms", (X.shape[0],), "real")
 
